@@ -135,10 +135,21 @@ def program(shape_src):
         return head + "        if not obs:\n            return 0\n        else:\n" + textwrap.indent(shape_src, "            ") + "\n    obs('F')\n    return 'end'\n"
     if frame == "eof":
         return head + textwrap.indent(shape_src, "        ")
+    if frame == "genfn":
+        # the shape is the body of an inner function; f reports what calling it gives (a generator object or not) and what iterating it yields
+        return ("def f(u1, u2, it, obs, ctx, sup, E):\n    def inner():\n" + textwrap.indent(shape_src, "        ")
+                + "\n    try:\n        made = inner()\n        kind = type(made).__name__\n        items = list(made) if kind == 'generator' else made\n    except E:\n        return 'raised'\n    return (kind, items)\n")
     if frame == "module":
         # the line after the function is a call at column 0 whose name is long enough for a column inside the function to fall into it
         return "def observe_result(g):\n    return g\n\n\n" + head + textwrap.indent(shape_src, "        ") + "\nobserve_result(f)\nobserve_result(observe_result)\n"
     raise ValueError(frame)
+
+
+def generator_kind_shapes():
+    """`return` followed by a `yield` that is never reached (the idiom for an empty generator), `raise` followed by one: deleting the yield as
+    unreachable would turn the generator into a plain function (calling it would run the body / return None instead of an iterator)"""
+    return [["#frame:genfn", "return", "yield"], ["#frame:genfn", "obs(1)", "return", "yield 5"], ["#frame:genfn", "if u1:", "    return", "    yield 1", "obs(2)"],
+            ["#frame:genfn", "raise E()", "yield"], ["#frame:genfn", "while True:", "    obs(1)", "    break", "return", "yield from it"]]
 
 
 def else_spelling_shapes():
@@ -463,7 +474,7 @@ def run(tier, seed):
     else:
         cons_shapes = rnd.sample(shapes, min(len(shapes), 5000))
     have = {"\n".join(x) for x in cons_shapes}
-    cons_shapes = cons_shapes + [x for x in elif_shapes() if "\n".join(x) not in have] + raising_purpose_shapes() + moved_code_shapes() + else_spelling_shapes()
+    cons_shapes = cons_shapes + [x for x in elif_shapes() if "\n".join(x) not in have] + raising_purpose_shapes() + moved_code_shapes() + else_spelling_shapes() + generator_kind_shapes()
     stmts = [f"{e}" for e in EXPRS] + STMTS
     ctx = mp.get_context("fork")
     with ctx.Pool(16, maxtasksperchild=300) as pool:
